@@ -928,3 +928,175 @@ class TextFacts:
             "contains": self.always_contains(e), "finite": self.finite_set(e), "ws_inside": self.implicit_ws_possible(name),
             "atomic": self.G.rules[name]["ty"] == "atomic",
         }
+
+
+# ---------------------------------------------------------------------------------------------------------------------
+# G-REPARSE: exponential re-parsing.  pest is a PEG engine without memoisation: when an attempt `X ~ tail` fails at `tail`
+# and the continuation starts with X again, X is parsed twice at the same position.  If X can contain the enclosing
+# construct (nesting), every level doubles the work: 2^depth.
+# ---------------------------------------------------------------------------------------------------------------------
+class Reparse:
+    def __init__(self, rules_json):
+        self.rules = {r["name"]: r for r in rules_json}
+        self._null = {}
+        self._reach = {}
+        self._lc = {}
+
+    def nullable(self, e, stack=()):
+        k = e["k"]
+        if k == "str":
+            return e["v"] == ""
+        if k in ("opt", "rep", "repmax", "pospred", "negpred", "peekslice", "skip"):
+            return True
+        if k in ("insens", "range"):
+            return False
+        if k == "ident":
+            n = e["v"]
+            if n not in self.rules:
+                return n in ("SOI", "EOI", "PEEK", "POP", "DROP", "PEEK_ALL", "POP_ALL")
+            if n in self._null:
+                return self._null[n]
+            if n in stack:
+                return False
+            v = self.nullable(self.rules[n]["expr"], stack + (n,))
+            self._null[n] = v
+            return v
+        if k == "seq":
+            return self.nullable(e["a"], stack) and self.nullable(e["b"], stack)
+        if k == "choice":
+            return self.nullable(e["a"], stack) or self.nullable(e["b"], stack)
+        if k in ("reponce", "repmin", "push", "repexact", "repminmax"):
+            return self.nullable(e["x"], stack)
+        return False
+
+    def lead(self, e):
+        """rule names that can be invoked at the start position of e (direct, not through other rules)"""
+        k = e["k"]
+        if k == "ident":
+            return {e["v"]} if e["v"] in self.rules else set()
+        if k == "seq":
+            s = self.lead(e["a"])
+            if self.nullable(e["a"]):
+                s = s | self.lead(e["b"])
+            return s
+        if k == "choice":
+            return self.lead(e["a"]) | self.lead(e["b"])
+        if k in ("opt", "rep", "repmax", "reponce", "repmin", "push", "repexact", "repminmax"):
+            return self.lead(e["x"])
+        return set()
+
+    def left_corners(self, e):
+        """all rules that can be entered at the start position of e, transitively"""
+        out = set()
+        todo = list(self.lead(e))
+        while todo:
+            n = todo.pop()
+            if n in out:
+                continue
+            out.add(n)
+            todo.extend(self.lead(self.rules[n]["expr"]))
+        return out
+
+    def mentions(self, e):
+        k = e["k"]
+        if k == "ident":
+            return {e["v"]} if e["v"] in self.rules else set()
+        s = set()
+        for c in ("a", "b", "x"):
+            if c in e and isinstance(e[c], dict):
+                s |= self.mentions(e[c])
+        return s
+
+    def reach(self, n):
+        if n in self._reach:
+            return self._reach[n]
+        out = set()
+        todo = list(self.mentions(self.rules[n]["expr"]))
+        while todo:
+            m = todo.pop()
+            if m in out:
+                continue
+            out.add(m)
+            todo.extend(self.mentions(self.rules[m]["expr"]))
+        self._reach[n] = out
+        return out
+
+    def _flatten(self, e):
+        if e["k"] == "seq":
+            return self._flatten(e["a"]) + self._flatten(e["b"])
+        return [e]
+
+    def _fails_after(self, x, X):
+        """can an attempt of x fail *after* having parsed X at its start?  True iff something non-nullable follows the
+        leading position where X is entered (x is not just X)."""
+        items = self._flatten(x)
+        # find the first item whose left corners contain X; something non-nullable must follow it
+        for i, it in enumerate(items):
+            if X in self.left_corners(it) or (it["k"] == "ident" and it["v"] == X):
+                rest = items[i + 1:]
+                if any(not self.nullable(r) for r in rest):
+                    return True
+                # or X is entered deeper inside `it` and followed by something there
+                if it["k"] == "ident" and it["v"] != X and it["v"] in self.rules:
+                    return self._fails_after(self.rules[it["v"]]["expr"], X)
+                return False
+            if not self.nullable(it):
+                return False
+        return False
+
+    def sites(self):
+        """[(rule, description, X)]"""
+        out = []
+        for name, r in self.rules.items():
+            self._walk(name, r["expr"], out)
+        return out
+
+    def _seq_of(self, items):
+        if not items:
+            return {"k": "str", "v": ""}
+        e = items[0]
+        for it in items[1:]:
+            e = {"k": "seq", "a": e, "b": it}
+        return e
+
+    def _nesting(self, X, rule):
+        return X in self.reach(X) and (rule == X or rule in self.reach(X))
+
+    def _walk(self, rule, e, out):
+        k = e["k"]
+        if k == "seq":
+            items = self._flatten(e)
+            for i, it in enumerate(items):
+                if it["k"] in ("rep", "opt", "reponce", "repmax", "repmin", "repminmax"):
+                    body = it["x"]
+                    rest = self._seq_of(items[i + 1:])
+                    common = (self.left_corners(body) | self.lead(body)) & (self.left_corners(rest) | self.lead(rest))
+                    # the outermost common rule is the one whose re-parse costs most; report each nesting one that is a direct lead
+                    for X in sorted(common & self.lead(body)):
+                        if self._nesting(X, rule) and self._fails_after(body, X):
+                            out.append((rule, "`%s` is attempted inside a repetition/option whose body continues after it, and again right after that repetition" % X, X))
+            for it in items:
+                self._walk(rule, it, out)
+            return
+        if k == "choice":
+            alts = []
+
+            def fl(c):
+                if c["k"] == "choice":
+                    fl(c["a"])
+                    fl(c["b"])
+                else:
+                    alts.append(c)
+            fl(e)
+            for i in range(len(alts)):
+                for j in range(i + 1, len(alts)):
+                    common = self.lead(alts[i]) & (self.left_corners(alts[j]) | self.lead(alts[j]))
+                    for X in sorted(common):
+                        if self._nesting(X, rule) and self._fails_after(alts[i], X):
+                            out.append((rule, "alternatives %d and %d both start with `%s`: when the first fails after it, `%s` is parsed again" % (i + 1, j + 1, X, X), X))
+            for a in alts:
+                self._walk(rule, a, out)
+            return
+        for c in ("a", "b", "x"):
+            if c in e and isinstance(e[c], dict):
+                self._walk(rule, e[c], out)
